@@ -96,6 +96,15 @@ def run(ctx):
     art = common.standard_prepare(ctx, MODULES, hx=False, test=True, generated=[])
     if art.get("test"):
         explore(ctx, art)
+    # peer isolation under the servers' own housekeeping: three peers on one real tcp / dtls server (one silent, one
+    # talkative), monitors from options.WithKeepAlive / WithInactivityMonitor / the default configuration; the observed
+    # peer's connection must behave as if it were alone (harness/c18 server levels, judged by C18's reference monitor)
+    from . import c18
+    with common.Lock():
+        st = common.build_test(ctx, "c18")
+        sd = common.build_driver(ctx, "C18")
+    if st and sd:
+        c18.server_peers_check(ctx, st, sd, random.Random(ctx.seed + 77), 400 if ctx.tier == "thorough" else 120, "C10", "serves-and-isolates")
     return common.finish(ctx)
 
 
@@ -105,6 +114,9 @@ def replay(ctx, rep):
     if not lines:
         print("replay file names no failing input:", rep.get("no_longer_checks"))
         return 1
+    if rep.get("server_peers"):
+        from . import c18
+        return c18.replay(ctx, rep)
     impl = common.run_test_harness(ctx, art["test"], "TestC10", lines, tag="replay")
     rc, judge, _ = common.pipe_lines([art["driver"], "judge"], [l + " | " + o for l, o in zip(lines, impl)])
     bad = 0
